@@ -28,13 +28,19 @@ static std::map<const void *, long> g_live;      // address -> serial
 static std::set<long> g_destroyed;
 static long g_double_destroy = 0;
 
-class Obj {
+class Tracked {
  public:
-  Obj() : serial(g_next_serial++) { g_live[this] = serial; }
-  virtual ~Obj() {
+  Tracked() : serial(g_next_serial++) { g_live[this] = serial; }
+  virtual ~Tracked() {
     if (!g_live.erase(this) || !g_destroyed.insert(serial).second) ++g_double_destroy;
   }
   long serial;
+};
+class Obj : public Tracked {};
+// a second, unrelated wrapped class (a toolbox has many): its handles share the allocator with Obj's
+class Other : public Tracked {
+ public:
+  long payload = 7;
 };
 // a MATLAB class name longer than any plausible fixed-size buffer (the RTTI path copies it out of the registry)
 static const char *const DERIVED_MATLAB_NAME =
@@ -44,11 +50,16 @@ class Derived : public Obj {
   double extra = 1.0;
 };
 
-static std::map<long, std::weak_ptr<Obj>> g_weak;   // serial -> weak ref (for use_count)
+static std::map<long, std::weak_ptr<Tracked>> g_weak;   // serial -> weak ref (for use_count)
 
 typedef std::set<std::shared_ptr<Obj> *> Collector_Obj;
 static Collector_Obj collector_Obj;
 static Collector_Obj collector_Derived;
+typedef std::set<std::shared_ptr<Other> *> Collector_Other;
+static Collector_Other collector_Other;
+static std::set<const void *> g_freed_handles;     // addresses of deleted heap shared_ptrs (never dereferenced)
+static long g_recycled = 0, g_recycled_other_class = 0;
+static std::map<const void *, int> g_freed_class;
 
 static void _deleteAllObjects() {
   for (auto *c : {&collector_Obj, &collector_Derived})
@@ -56,6 +67,10 @@ static void _deleteAllObjects() {
       delete *it;
       c->erase(it++);
     }
+  for (auto it = collector_Other.begin(); it != collector_Other.end();) {
+    delete *it;
+    collector_Other.erase(it++);
+  }
 }
 
 static uint64_t g_next_object_id = 1;
@@ -85,6 +100,29 @@ static int matlab_side(int nlhs, mxArray *plhs[], int nrhs, mxArray *prhs[], con
     (cls == "Obj" ? collector_Obj : collector_Derived).insert(self);
     mxArray *obj = mexsim::new_object(cls, g_next_object_id++);
     mexsim::set_prop(obj, "ptr_Obj", my_ptr);
+    if (nlhs >= 1) plhs[0] = obj;
+    return 0;
+  }
+  if (cls == "Other") {
+    if (nrhs < 2 || mxGetClassID(prhs[0]) != mxUINT64_CLASS ||
+        *reinterpret_cast<uint64_t *>(mxGetData(prhs[0])) != ptr_constructor_key)
+      mexErrMsgTxt("Arguments do not match any overload of constructor");
+    mxArray *my_ptr;
+    typedef std::shared_ptr<Other> Shared;
+    if (nrhs == 2) {
+      my_ptr = mxDuplicateArray(prhs[1]);
+    } else {
+      mexAtExit(&_deleteAllObjects);
+      std::shared_ptr<void> *asVoid = *reinterpret_cast<std::shared_ptr<void> **>(mxGetData(prhs[1]));
+      my_ptr = mxCreateNumericMatrix(1, 1, mxUINT32OR64_CLASS, mxREAL);
+      Shared *self = new Shared(std::static_pointer_cast<Other>(*asVoid));
+      *reinterpret_cast<Shared **>(mxGetData(my_ptr)) = self;
+    }
+    mexAtExit(&_deleteAllObjects);
+    Shared *self = *reinterpret_cast<Shared **>(mxGetData(my_ptr));
+    collector_Other.insert(self);
+    mxArray *obj = mexsim::new_object(cls, g_next_object_id++);
+    mexsim::set_prop(obj, "ptr_Other", my_ptr);
     if (nlhs >= 1) plhs[0] = obj;
     return 0;
   }
@@ -119,7 +157,7 @@ static std::string d2hex(double d) { return hexs(&d, 8); }
 
 static std::map<int, mxArray *> slots;
 static int next_slot = 1;
-static std::map<int, std::shared_ptr<Obj>> held;
+static std::map<int, std::shared_ptr<Tracked>> held;
 static int next_held = 1;
 
 static int put(mxArray *a) {
@@ -134,6 +172,8 @@ static void install_rtti() {
   mxSetFieldByNumber(reg, 0, f1, mxCreateString("Obj"));
   int f2 = mxAddField(reg, typeid(Derived).name());
   mxSetFieldByNumber(reg, 0, f2, mxCreateString(DERIVED_MATLAB_NAME));
+  int f3 = mxAddField(reg, typeid(Other).name());
+  mxSetFieldByNumber(reg, 0, f3, mxCreateString("Other"));
   mexPutVariable("global", "gtsamwrap_rttiRegistry", reg);
   mxDestroyArray(reg);
 }
@@ -202,7 +242,8 @@ static std::string run(std::istringstream &in) {
     out << "arr " << put(a) << " " << mexsim::describe(a);
   } else if (op == "new") {
     int which; in >> which;
-    std::shared_ptr<Obj> p = which ? std::shared_ptr<Obj>(new Derived()) : std::shared_ptr<Obj>(new Obj());
+    std::shared_ptr<Tracked> p = which == 2 ? std::shared_ptr<Tracked>(new Other())
+                                 : which ? std::shared_ptr<Tracked>(new Derived()) : std::shared_ptr<Tracked>(new Obj());
     g_weak[p->serial] = p;
     held[next_held] = p;
     out << "held " << next_held << " " << p->serial;
@@ -210,12 +251,25 @@ static std::string run(std::istringstream &in) {
   } else if (op == "wsp") {
     int h, virt; in >> h >> virt;
     if (!held.count(h)) return "bad no-held";
-    mxArray *o = wrap_shared_ptr(held[h], "Obj", virt != 0);
+    std::shared_ptr<Other> asOther = std::dynamic_pointer_cast<Other>(held[h]);
+    mxArray *o = asOther ? wrap_shared_ptr(asOther, "Other", virt != 0)
+                         : wrap_shared_ptr(std::static_pointer_cast<Obj>(held[h]), "Obj", virt != 0);
+    {
+      bool other = o->object_class == "Other";
+      const void *addr = *reinterpret_cast<void **>(mxGetData(mexsim::prop_ref(o, other ? "ptr_Other" : "ptr_Obj")));
+      if (g_freed_handles.count(addr)) {
+        ++g_recycled;
+        if (g_freed_class[addr] != (other ? 1 : 0)) ++g_recycled_other_class;
+        g_freed_handles.erase(addr);
+      }
+    }
     out << "obj " << put(o) << " " << o->object_class;
   } else if (op == "usp") {
     int s, keep; in >> s >> keep;
     if (!slots.count(s)) return "bad no-slot";
-    std::shared_ptr<Obj> p = unwrap_shared_ptr<Obj>(slots[s], "ptr_Obj");
+    std::shared_ptr<Tracked> p;
+    if (slots[s]->object_class == "Other") p = unwrap_shared_ptr<Other>(slots[s], "ptr_Other");
+    else p = unwrap_shared_ptr<Obj>(slots[s], "ptr_Obj");
     auto it = g_live.find(p.get());
     long serial = it == g_live.end() ? -1 : it->second;
     out << "sp " << serial;
@@ -223,7 +277,9 @@ static std::string run(std::istringstream &in) {
   } else if (op == "uptr") {
     int s; in >> s;
     if (!slots.count(s)) return "bad no-slot";
-    Obj *p = unwrap_ptr<Obj>(slots[s], "ptr_Obj");
+    Tracked *p;
+    if (slots[s]->object_class == "Other") p = unwrap_ptr<Other>(slots[s], "ptr_Other");
+    else p = unwrap_ptr<Obj>(slots[s], "ptr_Obj");
     auto it = g_live.find(p);          // never dereferenced unless it is a live object
     out << "ptr " << (it == g_live.end() ? -1 : it->second);
   } else if (op == "drop") {
@@ -235,13 +291,26 @@ static std::string run(std::istringstream &in) {
     if (!slots.count(s)) return "bad no-slot";
     mxArray *o = slots[s];
     // <Class>_deconstructor, called with obj.ptr_<Class>
+    if (o->object_class == "Other") {
+      typedef std::shared_ptr<Other> Shared;
+      mxArray *h = mexsim::prop_ref(o, "ptr_Other");
+      Shared *self = *reinterpret_cast<Shared **>(mxGetData(h));
+      auto item = collector_Other.find(self);
+      if (item != collector_Other.end()) collector_Other.erase(item);
+      g_freed_handles.insert(self);
+      g_freed_class[self] = 1;
+      delete self;
+    } else {
     typedef std::shared_ptr<Obj> Shared;
     mxArray *h = mexsim::prop_ref(o, "ptr_Obj");
     Shared *self = *reinterpret_cast<Shared **>(mxGetData(h));
     Collector_Obj &c = o->object_class == "Obj" ? collector_Obj : collector_Derived;
     auto item = c.find(self);
     if (item != c.end()) c.erase(item);
+    g_freed_handles.insert(self);
+    g_freed_class[self] = 0;
     delete self;
+    }
     mxDestroyArray(o);
     slots.erase(s);
     out << "ok";
@@ -269,7 +338,7 @@ static std::string run(std::istringstream &in) {
       if (uc > 0) { out << (first ? "" : ",") << kv.first << ":" << uc; first = false; }
     }
     if (first) out << "-";
-    out << " collector=" << (collector_Obj.size() + collector_Derived.size()) << " destroyed=" << g_destroyed.size()
+    out << " collector=" << (collector_Obj.size() + collector_Derived.size() + collector_Other.size()) << " destroyed=" << g_destroyed.size()
         << " doubledestroy=" << g_double_destroy << " arrays=" << mexsim::live_arrays()
         << " sizemismatch=" << gtsam::standin_size_mismatches;
   } else {
@@ -301,5 +370,6 @@ int main() {
   }
   std::cout << "end\n";
   std::cout.flush();
+  std::cerr << "probe recycled=" << g_recycled << " recycled_other_class=" << g_recycled_other_class << "\n";
   return 0;
 }
